@@ -40,7 +40,7 @@ structure MonCtx where
   deriving Repr, Inhabited
 
 def OpKind.msg? : OpKind → Option Nat
-  | .send m | .trySend m | .call m | .callw m | .tryCall m => some m
+  | .send m | .trySend m | .tryForce m | .call m | .callw m | .tryCall m => some m
   | _ => none
 
 def OpKind.isCall : OpKind → Bool
@@ -48,7 +48,7 @@ def OpKind.isCall : OpKind → Bool
   | _ => false
 
 def OpKind.isSend : OpKind → Bool
-  | .send _ | .trySend _ => true
+  | .send _ | .trySend _ | .tryForce _ => true
   | _ => false
 
 def Res.isErr : Res → Bool
